@@ -6,8 +6,8 @@ WT=$1; PATCH=$2; DEMO=$3; shift 3
 RSDEST=${1:-}; [ $# -gt 0 ] && shift
 run_demo() {
   case "$DEMO" in
-    *.sh) (cd $WT && bash $DEMO) ;;
-    *.py) (cd $WT && python3 $DEMO) ;;
+    *.sh) (cd $WT && bash $DEMO "$@") ;;
+    *.py) (cd $WT && python3 $DEMO "$@") ;;
     *.rs) mkdir -p $(dirname $WT/$RSDEST); cp $DEMO $WT/$RSDEST; (cd $WT && cargo test --offline "$@" 2>&1 | tail -15; r=${PIPESTATUS[0]}; rm -f $WT/$RSDEST; exit $r) ;;
   esac
 }
